@@ -14,6 +14,7 @@ import (
 	"sync"
 	"time"
 
+	"github.com/twmb/franz-go/pkg/kadm"
 	"github.com/twmb/franz-go/pkg/kfake"
 	"github.com/twmb/franz-go/pkg/kgo"
 	"github.com/twmb/franz-go/pkg/kmsg"
@@ -98,6 +99,8 @@ type G struct {
 	clients map[string]*kgo.Client
 	subs    map[string]map[string]bool // live member -> subscribed topics
 	id2t    map[[16]byte]string
+	notify  chan struct{} // closed and replaced at every log append
+	quit    chan struct{} // closed at cleanup: gates give up, scripts end
 }
 
 // ClusterOpts are the kfake options of the family.
@@ -123,8 +126,10 @@ func ClusterOpts(topics map[string]int32) []kfake.Opt {
 // New creates the cluster (one broker: connection names must not depend on
 // which member the balancer happens to favour) and the log.
 func New(x *netctl.Exec, proto Proto, topics map[string]int32) *G {
-	g := &G{X: x, Proto: proto, apiCall: map[string][]int64{}, clients: map[string]*kgo.Client{}, subs: map[string]map[string]bool{}, id2t: map[[16]byte]string{}}
+	g := &G{X: x, Proto: proto, apiCall: map[string][]int64{}, clients: map[string]*kgo.Client{}, subs: map[string]map[string]bool{}, id2t: map[[16]byte]string{}, notify: make(chan struct{})}
 	g.C = x.Cluster(1, ClusterOpts(topics)...)
+	g.quit = make(chan struct{})
+	x.OnCleanup(func() { close(g.quit) }) // registered after the cluster's Close, so it runs before it
 	for t := range topics {
 		if ti := g.C.TopicInfo(t); ti != nil {
 			g.id2t[ti.TopicID] = t
@@ -133,7 +138,61 @@ func New(x *netctl.Exec, proto Proto, topics map[string]int32) *G {
 	return g
 }
 
-func (g *G) stamp() int64 { g.seq++; return g.seq }
+// stamp returns the next sequence number and wakes WaitUntil callers; g.mu held.
+func (g *G) stamp() int64 {
+	g.seq++
+	close(g.notify)
+	g.notify = make(chan struct{})
+	return g.seq
+}
+
+// WaitUntil blocks the calling thread (durably: channel wait) until cond
+// holds, re-evaluating it after every log append; false after limit of
+// virtual time.
+func (g *G) WaitUntil(limit time.Duration, cond func() bool) bool {
+	tm := time.NewTimer(limit)
+	defer tm.Stop()
+	for {
+		g.mu.Lock()
+		ch := g.notify
+		g.mu.Unlock()
+		if cond() {
+			return true
+		}
+		select {
+		case <-ch:
+		case <-tm.C:
+			return false
+		case <-g.quit:
+			return false
+		}
+	}
+}
+
+// Owned returns the partitions member owns according to the callback log.
+func (g *G) Owned(member string) []TP {
+	cbs, _, _, _ := g.Snapshot()
+	var out []TP
+	for tp, ms := range Owners(cbs, nil) {
+		if _, ok := ms[member]; ok {
+			out = append(out, tp)
+		}
+	}
+	sort.Slice(out, func(i, j int) bool { return out[i].T < out[j].T || out[i].T == out[j].T && out[i].P < out[j].P })
+	return out
+}
+
+// Seen reports whether a callback boundary of the given member/kind/phase is in the log.
+func (g *G) Seen(member, kind string, end bool) bool {
+	g.mu.Lock()
+	defer g.mu.Unlock()
+	for _, e := range g.cbs {
+		if e.Member == member && e.Kind == kind && e.End == end {
+			return true
+		}
+	}
+	return false
+}
 
 // Stamp returns the next global sequence number.
 func (g *G) Stamp() int64 {
@@ -233,6 +292,7 @@ func (g *G) Subscribe(name string, topics ...string) {
 func (g *G) Gone(name string) {
 	g.mu.Lock()
 	delete(g.subs, name)
+	g.stamp()
 	g.mu.Unlock()
 }
 
@@ -440,15 +500,17 @@ func (g *G) Converged() (bool, string) {
 	return len(bad) == 0, strings.Join(bad, "; ")
 }
 
-// Outcome is a canonical summary of the callback log that does not depend on
+// Outcome is a canonical summary of the callback log (START "+" and END "-"
+// of every callback, in global order) that does not depend on
 // which concrete partitions a member got (member ids are random in 848).
 func Outcome(cbs []CB) string {
 	var b strings.Builder
 	for _, e := range cbs {
+		ph := '+'
 		if e.End {
-			continue
+			ph = '-'
 		}
-		fmt.Fprintf(&b, "%s%c%d ", e.Member, e.Kind[0], len(e.Parts))
+		fmt.Fprintf(&b, "%s%c%c%d ", e.Member, ph, e.Kind[0], len(e.Parts))
 	}
 	return strings.TrimSpace(b.String())
 }
@@ -500,35 +562,28 @@ func (g *G) AddPartitions(topic string, count int32) error {
 }
 
 // FetchCommitted returns the group's committed offsets (OffsetFetch by an
-// uncontrolled client).
+// uncontrolled admin client).
 func (g *G) FetchCommitted() (map[TP]int64, error) {
 	h := nscen.Helper(g.X, g.C)
 	defer h.Close()
 	ctx, cancel := context.WithTimeout(context.Background(), time.Minute)
 	defer cancel()
-	req := kmsg.NewPtrOffsetFetchRequest()
-	req.Version = 7 // single-group form, all topics
-	req.Group = Group
-	req.Topics = nil
-	resp, err := req.RequestWith(ctx, h)
+	resp, err := kadm.NewClient(h).FetchOffsets(ctx, Group)
 	if err != nil {
 		return nil, err
 	}
-	if resp.ErrorCode != 0 {
-		return nil, fmt.Errorf("OffsetFetch: error code %d", resp.ErrorCode)
-	}
 	out := map[TP]int64{}
-	for _, t := range resp.Topics {
-		for _, p := range t.Partitions {
-			if p.ErrorCode != 0 {
-				return nil, fmt.Errorf("OffsetFetch %s/%d: error code %d", t.Topic, p.Partition, p.ErrorCode)
-			}
-			if p.Offset >= 0 {
-				out[TP{t.Topic, p.Partition}] = p.Offset
-			}
+	var ferr error
+	resp.Each(func(o kadm.OffsetResponse) {
+		if o.Err != nil {
+			ferr = fmt.Errorf("OffsetFetch %s/%d: %v", o.Topic, o.Partition, o.Err)
+			return
 		}
-	}
-	return out, nil
+		if o.At >= 0 {
+			out[TP{o.Topic, o.Partition}] = o.At
+		}
+	})
+	return out, ferr
 }
 
 // WaitThreads blocks (virtual time) until every scripted thread returned.
